@@ -14,15 +14,20 @@ import (
 //	groups_small    csv2 `child_records` / fixedlength2 `child_envelopes`: their JSON schema is a
 //	                `oneOf` of three alternatives that all recurse into the children, which
 //	                gojsonschema evaluates in time cost(list) = sum over elements of
-//	                3 * (1 + cost(children)); the guard is cost <= 50000 (about 0.3 s) (N4).
+//	                3 * (1 + cost(children)); the guard is cost <= 100000 (about 0.6 s) (N4).
 //	js_no_map_set   javascript sources come from the generator's pools without Map / Set results:
 //	                goja's own export of a Map / Set that contains itself overflows the stack (N8).
+//	xpath_no_top_connective  no xpath string (value of an `xpath` member, any string below `xpath_dynamic`)
+//	                has an `and` / `or` outside predicates and quotes (N12).
 //
 // The guards int_plain, xd_no_null, xpath_plain and js_export_total of the first round are gone:
 // N1, N2, N5, N6, N7 are repaired and the generators exercise those classes; so is N10 (guard
 // csv_rows_small of round 4): failing-reader runs use any header / data row index.
 func guardViolation(tree interface{}) string {
-	if on("groups_small") && groupCost(tree) > 50000 {
+	if on("xpath_no_top_connective") && !xpathsNoConnective(tree, false) {
+		return "xpath_no_top_connective"
+	}
+	if on("groups_small") && groupCost(tree) > 100000 {
 		return "groups_small"
 	}
 	if on("tpl_small") && expansionSize(tree) > 50000 {
@@ -143,4 +148,65 @@ func groupCost(v interface{}) int64 {
 		return 0
 	}
 	return listCost(fd["records"]) + listCost(fd["envelopes"])
+}
+
+// topConnective: a word `and` / `or` at bracket depth 0 outside quotes.
+func topConnective(x string) bool {
+	depth := 0
+	var quote byte
+	isName := func(c byte) bool {
+		return c == '-' || c == '_' || c == '.' || c == ':' || c >= '0' && c <= '9' || c >= 'a' && c <= 'z' || c >= 'A' && c <= 'Z' || c >= 0x80
+	}
+	for i := 0; i < len(x); i++ {
+		c := x[i]
+		if quote != 0 {
+			if c == quote {
+				quote = 0
+			}
+			continue
+		}
+		switch c {
+		case '\'', '"':
+			quote = c
+		case '[':
+			depth++
+		case ']':
+			if depth > 0 {
+				depth--
+			}
+		case 'a', 'o':
+			if depth > 0 || i > 0 && isName(x[i-1]) {
+				continue
+			}
+			for _, w := range []string{"and", "or"} {
+				if strings.HasPrefix(x[i:], w) && (i+len(w) == len(x) || !isName(x[i+len(w)])) && i > 0 {
+					return true
+				}
+			}
+		}
+	}
+	return false
+}
+
+func xpathsNoConnective(v interface{}, inXD bool) bool {
+	switch x := v.(type) {
+	case string:
+		return !inXD || !topConnective(x)
+	case []interface{}:
+		for _, e := range x {
+			if !xpathsNoConnective(e, inXD) {
+				return false
+			}
+		}
+	case map[string]interface{}:
+		for _, k := range keysOf(x) {
+			if s, ok := x[k].(string); ok && k == "xpath" && topConnective(s) {
+				return false
+			}
+			if !xpathsNoConnective(x[k], inXD || k == "xpath_dynamic") {
+				return false
+			}
+		}
+	}
+	return true
 }
